@@ -35,6 +35,14 @@ class UnitEnvironment:
     def __init__(self, units):
         self.new_units = []
         self.new_types = []
+        try:
+            self._register(units)
+        except:
+            # registration failed part-way: undo what has been registered so far
+            self.close()
+            raise
+        
+    def _register(self, units):
         for symbol, unit in units.items():
             if isinstance(unit, Quantity):
                 unit = {'magnitude':unit.magnitude.value*unit.baseunits.magnitude, 'dimensions':unit.baseunits.dimensions.value(dtype=list)}
